@@ -98,6 +98,14 @@ def worker(arg):
             got = wr.from_py(tr_, pydsdl.deserialize(R, b, with_delimiter_header=sh["hdr"]))
             if got != out["expected"]:
                 diff.append(("read with the other revision", tlaval.to_json(got), tlaval.to_json(out["expected"])))
+            if sh["hdr"]:
+                # framed records back to back: what follows the announced payload belongs to the next record, whatever the reader's
+                # revision expects (fields unknown to the writer read as zero, not as the bytes behind the payload)
+                for tail in (b"\xff" * 16, b"\x05\x00\x00\x00\x03\x07\x01\x02\x03", memoryview(b"\xaa" * 40)[3:20]):
+                    got2 = wr.from_py(tr_, pydsdl.deserialize(R, bytes(b) + bytes(tail), with_delimiter_header=True))
+                    if got2 != got:
+                        diff.append(("read with the other revision from a buffer that continues behind the payload", tlaval.to_json(got2), tlaval.to_json(got)))
+                        break
             # and the same revision still reads its own data
             own = wr.from_py(tw, pydsdl.deserialize(W, b, with_delimiter_header=sh["hdr"]))
             # (compared against C06's canon implicitly: it must re-serialise to the same bytes)
